@@ -48,6 +48,11 @@ func runBuffered(c bufCfg, choose func(step int, en []*sched.Thread, last *sched
 	}
 	netty.VerifAttach(pl, ch)
 	s.Spawn("w0", func() {
+		defer func() {
+			if e := recover(); e != nil {
+				stuck = "a write call failed with a runtime fault: " + fmt.Sprint(e)
+			}
+		}()
 		for k := range c.Kinds {
 			buf := payload(900+k, c.Sizes[k])
 			keep := append([]byte(nil), buf...)
@@ -71,6 +76,11 @@ func runBuffered(c bufCfg, choose func(step int, en []*sched.Thread, last *sched
 	})
 	if c.QCap == 0 && c.Empty > 0 {
 		s.Spawn("w1", func() {
+			defer func() {
+				if e := recover(); e != nil {
+					stuck = "an empty write call failed with a runtime fault: " + fmt.Sprint(e)
+				}
+			}()
 			for k := 0; k < c.Empty; k++ {
 				if k%2 == 0 {
 					ch.Write1(nil)
@@ -127,7 +137,8 @@ func exploreBuffered(rng *hx.Rng, meta *hx.Meta, prop string, n int) {
 		c.Picks = picks
 		rep := map[string]interface{}{"buffered": c}
 		if stuck != "" {
-			meta.Violate(hx.Violation{Property: prop, Signature: "buffered-stuck", What: "channel over the buffered transport never comes to rest: " + stuck, Replay: rep})
+			meta.Violate(hx.Violation{Property: prop, Signature: "buffered-stuck", What: "channel over the buffered transport never comes to rest / faults: " + stuck, Replay: rep})
+			meta.Violate(hx.Violation{Property: "C10", Signature: "write-fault", What: "channel over the buffered transport: " + stuck, Replay: rep})
 			continue
 		}
 		if !bytes.HasPrefix(want, got) {
